@@ -149,7 +149,37 @@ func c04Replay(i int, raw json.RawMessage) Result {
 				Detail: fmt.Sprintf("%s: operands evaluated %v, spec %v", src, c04Log, v.Log)}
 		}
 	}
+	// the operands held in variables and the result assigned back to one of them, executed twice: the value is the
+	// same both times (what a literal stands for does not depend on earlier executions of the template)
+	if v.Shape == "B1" && len(v.Log) == 0 && len(v.Ops) == 1 {
+		if cut := indexOfTok(v.Toks, v.Ops[0]); cut > 0 {
+			l, r := strings.Join(v.Toks[:cut], " "), strings.Join(v.Toks[cut+1:], " ")
+			src := "{{ x := " + l + " }}{{ y := " + r + " }}{{ x = x " + v.Ops[0] + " y }}{{ x }}"
+			sig := map[string]interface{}{"form": "assigned-twice", "shape": v.Shape, "ops": strings.Join(v.Ops, " "), "kind": "value"}
+			if t, err := c04Set.Parse("/a.jet", src); err == nil {
+				for round := 1; round <= 2; round++ {
+					var b bytes.Buffer
+					if err := safeExecute(t, &b, nil, struct{ Seven int }{7}); err != nil {
+						sig["kind"] = "error"
+						return Result{Sig: sig, Key: key, Observed: err.Error(), Detail: fmt.Sprintf("%s failed in execution %d: %v (spec value %+v)", src, round, err, v.V)}
+					}
+					if ok, why := c04Check(&v, b.String()); !ok {
+						return Result{Sig: sig, Key: key, Observed: b.String(), Expected: v.V, Detail: fmt.Sprintf("%s, execution %d: %s", src, round, why)}
+					}
+				}
+			}
+		}
+	}
 	return Result{OK: true, Key: key}
+}
+
+func indexOfTok(toks []string, op string) int {
+	for i, t := range toks {
+		if t == op {
+			return i
+		}
+	}
+	return -1
 }
 
 // c05CondReplay (C05): the expression as the condition of an if and of an else-if; exactly one branch renders, the one
